@@ -60,7 +60,7 @@ class FirstFitOnline(FunctionContract):
         return outer_facts(c, b, i, items, B) + [
             ("cursor", z3.And(0 <= ib, ib <= b.nb)),
             ("value", z3.And(value == L.val(c["item"].t), c["item"].t == items.arr[items.lo + i], value <= B)),
-            ("C14:no-earlier-bin-fits", z3.ForAll([j], z3.Implies(z3.And(0 <= j, j < ib), b.S[j] + value > B)))]
+            ("C09,C14:no-earlier-bin-fits", z3.ForAll([j], z3.Implies(z3.And(0 <= j, j < ib), b.S[j] + value > B)))]
 
     loops = {0: LoopSpec("items", outer.__func__, name="items-loop"), 1: LoopSpec("ibin < numbins", inner.__func__, name="scan-loop")}
 
@@ -119,7 +119,7 @@ class BestFitOnline(FirstFitOnline):
         j = L.fresh("j", L.IntS)
         fits = lambda j: b.S[j] + value <= B
         return [("cursor", z3.And(0 <= ib, ib <= b.nb)),
-                ("C14:best-so-far", z3.Or(
+                ("C09,C14:best-so-far", z3.Or(
                     z3.And(bi == -1, bs == -1, z3.ForAll([j], z3.Implies(z3.And(0 <= j, j < ib), z3.Not(fits(j))))),
                     z3.And(0 <= bi, bi < ib, bs == b.S[bi] + value, bs <= B,
                            z3.ForAll([j], z3.Implies(z3.And(0 <= j, j < ib, fits(j)), b.S[j] + value <= bs)),
